@@ -1165,4 +1165,23 @@ theorem ds_replay_untruncated_partial (chunk : Nat) (hc : 0 < chunk) (rs : List 
   rw [dsOf_eq]
   simpa [dsResume] using ds_replayPaged_nofault chunk hc rs h batch hb fuel 0 0 [] (by omega) (by omega)
 
+/-! ### KNOWN FINDING: the SQLite store as a SubscriptionStore for another store's offsets -/
+
+/-- a memory log of six records -/
+def mem6 : Mem := (List.range 6).foldl (fun m r => (m.append (r + 1)).1) {}
+
+/-- KNOWN FINDING (C10): offsets are opaque strings whose format the event store defines, but the SQLite store keeps
+saved positions as integers: the memory store's offset of record 3 is accepted and comes back as `"3"` -/
+theorem sqlite_saved_offset_not_verbatim :
+    ((Sql.save {} "s" (fmt20 3)).map (fun s => s.load "s")) = some (decimal 3) ∧ decimal 3 ≠ fmt20 3 := by
+  decide +kernel
+
+/-- KNOWN FINDING (C12): … and the memory store, which compares offsets as strings, finds nothing after `"3"` – neither
+by streaming nor by reading – although records 4, 5 and 6 follow the offset that was saved: a subscription whose
+positions are kept in the SQLite store loses every event of a memory log that was published while it was away -/
+theorem sqlite_positions_lose_memory_events :
+    (mem6.stream (fmt20 3)).map (·.2) = [4, 5, 6] ∧
+    mem6.stream (decimal 3) = [] ∧ (mem6.read (decimal 3) 0).1 = [] := by
+  decide +kernel
+
 end Ebu.Log
